@@ -1,18 +1,27 @@
 //! C10 executor.  Floats travel as decimal u64 bit patterns (`f64::to_bits`).
 //!   line spec  <ls> ::= B x1 y1 x2 y2   (Line::between)   |   N a b c   (Line::new)
-//!   line <ls>                     -> L a b c
+//!                     | R a b c   (struct literal `Line { a, b, c }`)   |   Z   (Line::default())
+//!   line <ls>                     -> L a b c          (X ort when `ort()` is not the stored normal)
 //!   ll <ls> <ls>                  -> N | S x y
 //!   cl cx cy r <ls>               -> N | T x y | I x1 y1 x2 y2
 //!   cc ax ay ar bx by br          -> N | E | TI x y | TO x y | I x1 y1 x2 y2
 //!   pos cx cy r px py             -> IN | BO | OUT
 //!   con <ls> px py                -> 1 | 0
+//!   ldist <ls> px py              -> V d                        (Line::dist)
+//!   dist x1 y1 x2 y2              -> V d                        (util::dist)
+//!   par <ls> <ls>                 -> 1 | 0                      (util::parallel)
+//!   pt x1 y1 x2 y2 k              -> V (a+b).x (a+b).y (a-b).x (a-b).y (a*k).x (a*k).y (a/k).x (a/k).y a.dp(b) a.cp(b)
+//!                                      a.slen() a.len()         with a = (x1,y1), b = (x2,y2)
+//! Internal consistency checks print `X <what>` (no model result matches it): the four receiver forms of Point + and -
+//! disagree, `From<Point> for (f64,f64)`, `PartialEq`, `Default` of Point, `Line::ort`, or the iterator of an
+//! intersection result (reverse order, count, size_hint) is inconsistent with its forward traversal.
 //!   search seed n                 -> OK <counters> | FAIL <what> <harness line of the failing configuration>
 //! A panic prints `P`.
 use rlib_geometry::{
     circle::{Circle, PointPosition},
     line::Line,
     point::Point,
-    util::{intersect_cc, intersect_cl, intersect_ll, CircleIntersection, CircleLineIntersection},
+    util::{dist, intersect_cc, intersect_cl, intersect_ll, parallel, CircleIntersection, CircleLineIntersection},
 };
 
 fn f(s: &str) -> f64 {
@@ -33,6 +42,8 @@ fn line_spec(t: &[&str], i: usize) -> (Line, usize) {
             i + 5,
         ),
         "N" => (Line::new(f(t[i + 1]), f(t[i + 2]), f(t[i + 3])), i + 4),
+        "R" => (Line { a: f(t[i + 1]), b: f(t[i + 2]), c: f(t[i + 3]) }, i + 4),
+        "Z" => (Line::default(), i + 1),
         other => {
             eprintln!("harness: bad line spec {}", other);
             std::process::exit(3)
@@ -52,14 +63,54 @@ fn by_count(tag1: &str, it: &[Point]) -> String {
         _ => format!("I {} {}", pt(&it[0]), pt(&it[1])),
     }
 }
+/// reverse traversal, count and size_hint of the iterator against its forward traversal `fwd`
+fn iter_consistent<I: DoubleEndedIterator<Item = Point>, M: Fn() -> I>(mk: M, fwd: &[Point]) -> Option<&'static str> {
+    let mut rev: Vec<Point> = mk().rev().collect();
+    rev.reverse();
+    if !same_points(&rev, fwd) {
+        return Some("X iter-rev");
+    }
+    if mk().count() != fwd.len() {
+        return Some("X iter-count");
+    }
+    let (lo, hi) = mk().size_hint();
+    if lo > fwd.len() || hi.map_or(false, |h| h < fwd.len()) {
+        return Some("X iter-size-hint");
+    }
+    // a partially consumed iterator: after one `next` the rest is the tail
+    let mut it = mk();
+    let first = it.next();
+    let rest: Vec<Point> = it.collect();
+    let mut again: Vec<Point> = first.into_iter().collect();
+    again.extend(rest);
+    if !same_points(&again, fwd) {
+        return Some("X iter-next");
+    }
+    None
+}
 fn show_cl(r: CircleLineIntersection) -> String {
     let (s, pts) = match &r {
         CircleLineIntersection::None => ("N".to_string(), vec![]),
         CircleLineIntersection::Touch(p) => (format!("T {}", pt(p)), vec![*p]),
         CircleLineIntersection::Intersect(p, q) => (format!("I {} {}", pt(p), pt(q)), vec![*p, *q]),
     };
+    // the result type is not Clone: rebuild it from the variant's points
+    let mk = || {
+        match pts.len() {
+            0 => CircleLineIntersection::None,
+            1 => CircleLineIntersection::Touch(pts[0]),
+            _ => CircleLineIntersection::Intersect(pts[0], pts[1]),
+        }
+        .into_iter()
+    };
     let it: Vec<Point> = r.into_iter().collect();
-    if same_points(&pts, &it) { s } else { by_count("T", &it) }
+    if !same_points(&pts, &it) {
+        return by_count("T", &it);
+    }
+    match iter_consistent(mk, &it) {
+        Some(x) => x.to_string(),
+        None => s,
+    }
 }
 fn show_cc(r: CircleIntersection) -> String {
     let (s, pts, tag1) = match &r {
@@ -70,11 +121,22 @@ fn show_cc(r: CircleIntersection) -> String {
         CircleIntersection::Intersect(p, q) => (format!("I {} {}", pt(p), pt(q)), vec![*p, *q], "TO"),
     };
     let it: Vec<Point> = r.into_iter().collect();
-    if same_points(&pts, &it) { s } else { by_count(tag1, &it) }
+    if !same_points(&pts, &it) {
+        return by_count(tag1, &it);
+    }
+    match iter_consistent(|| r.into_iter(), &it) {
+        Some(x) => x.to_string(),
+        None => s,
+    }
+}
+fn same_pt(p: &Point, q: &Point) -> bool {
+    p.x.to_bits() == q.x.to_bits() && p.y.to_bits() == q.y.to_bits()
 }
 
 // ------------------------------------------------------------------ implementation-level search
 const TOL: f64 = 1e-7;
+/// smallest radius of the quantifier (2^-10)
+const MIN_R: f64 = 1.0 / 1024.0;
 
 fn hyp(x: f64, y: f64) -> f64 {
     x.hypot(y)
@@ -228,17 +290,38 @@ fn search(seed: u64, n: u64) -> String {
                 let ra = if lattice { g.int(1, 20) as f64 } else { g.range(0.05 * m, m) };
                 let a = Circle::new(Point::new(coord(&mut g), coord(&mut g)), ra);
                 let near = !lattice && it % 5 == 0;
-                let bc = if near {
-                    // radius ratio up to 1e3:1, 20 EPS .. 1e4 EPS on either side of the inner / outer tangency
-                    let rb = ra / g.range(1.0, 1000.0);
+                let ratio_cross = !lattice && it % 5 == 1;
+                let (a, bc) = if near {
+                    // radius ratio log-uniform in 1 .. 1e6 (the small radius stays >= 2^-10), 20 EPS .. 1e4 EPS on
+                    // either side of the inner / outer tangency
+                    let rb = (ra / (10f64).powf(g.range(0.0, 6.0))).max(MIN_R);
                     let delta = [2e-8, 5e-8, 1e-7, 1e-6, 1e-5][(g.0.next() % 5) as usize] * if g.0.next() % 2 == 0 { 1.0 } else { -1.0 };
                     let d = if g.0.next() % 2 == 0 { ra + rb + delta } else { (ra - rb + delta).max(0.0) };
                     let ang = g.range(0.0, std::f64::consts::TAU);
-                    Circle::new(Point::new(a.c.x + d * ang.cos(), a.c.y + d * ang.sin()), rb)
+                    (a, Circle::new(Point::new(a.c.x + d * ang.cos(), a.c.y + d * ang.sin()), rb))
+                } else if ratio_cross {
+                    // a clear crossing at an extreme ratio: large radius 100 .. 1024, small radius log-uniform
+                    // 2^-10 .. 1, centre distance ra + t * rb with |t| <= 0.95; every coordinate within 1024
+                    let ra = if g.0.next() % 4 == 0 { [1000.0, 1024.0][(g.0.next() % 2) as usize] } else { g.range(100.0, 1024.0) };
+                    let rb = MIN_R * (1024f64).powf(g.u());
+                    let d = ra + g.range(-0.95, 0.95) * rb;
+                    loop {
+                        let ang = g.range(0.0, std::f64::consts::TAU);
+                        let (co, si) = (ang.cos(), ang.sin());
+                        let (sh, w) = (g.u(), g.range(-300.0, 300.0));
+                        let ac = Point::new(-sh * d * co - w * si, -sh * d * si + w * co);
+                        let bcn = Point::new(ac.x + d * co, ac.y + d * si);
+                        if ac.x.abs().max(ac.y.abs()).max(bcn.x.abs()).max(bcn.y.abs()) <= 1024.0 {
+                            break (Circle::new(ac, ra), Circle::new(bcn, rb));
+                        }
+                    }
                 } else {
                     let rb = if lattice { g.int(1, 20) as f64 } else { g.range(0.05 * m, m) };
-                    Circle::new(Point::new(coord(&mut g), coord(&mut g)), rb)
+                    (a, Circle::new(Point::new(coord(&mut g), coord(&mut g)), rb))
                 };
+                // both argument orders
+                let (a, bc) = if !lattice && g.0.next() % 2 == 0 { (bc, a) } else { (a, bc) };
+                let ra = a.r;
                 let rb = bc.r;
                 let line = format!("cc {} {} {} {}", pt(&a.c), b(a.r), pt(&bc.c), b(bc.r));
                 let res = intersect_cc(&a, &bc);
@@ -294,7 +377,54 @@ fn main() {
     vh::serve(|t| match t[0] {
         "line" => {
             let (l, _) = line_spec(t, 1);
-            format!("L {} {} {}", b(l.a), b(l.b), b(l.c))
+            if !same_pt(&l.ort(), &Point::new(l.a, l.b)) {
+                return "X ort".to_string();
+            }
+            let l2 = l; // Copy
+            format!("L {} {} {}", b(l2.a), b(l2.b), b(l2.c))
+        }
+        "ldist" => {
+            let (l, i) = line_spec(t, 1);
+            format!("V {}", b(l.dist(&Point::new(f(t[i]), f(t[i + 1])))))
+        }
+        "dist" => format!("V {}", b(dist(&Point::new(f(t[1]), f(t[2])), &Point::new(f(t[3]), f(t[4]))))),
+        "par" => {
+            let (u, i) = line_spec(t, 1);
+            let (v, _) = line_spec(t, i);
+            if !same_pt(&u.ort(), &Point::new(u.a, u.b)) || !same_pt(&v.ort(), &Point::new(v.a, v.b)) {
+                return "X ort".to_string();
+            }
+            if parallel(&u, &v) { "1" } else { "0" }.to_string()
+        }
+        "pt" => {
+            let a = Point::new(f(t[1]), f(t[2]));
+            let c = Point::new(f(t[3]), f(t[4]));
+            let k = f(t[5]);
+            let sum = a + c;
+            if !(same_pt(&sum, &(a + &c)) && same_pt(&sum, &(&a + &c)) && same_pt(&sum, &(&a + c))) {
+                return "X add-forms".to_string();
+            }
+            let dif = a - c;
+            if !(same_pt(&dif, &(a - &c)) && same_pt(&dif, &(&a - &c)) && same_pt(&dif, &(&a - c))) {
+                return "X sub-forms".to_string();
+            }
+            let tup: (f64, f64) = a.into();
+            if tup.0.to_bits() != a.x.to_bits() || tup.1.to_bits() != a.y.to_bits() {
+                return "X from".to_string();
+            }
+            #[allow(clippy::eq_op)]
+            if (a == c) != (a.x == c.x && a.y == c.y) || (a != c) == (a == c) || (a == a) != (a.x == a.x && a.y == a.y) {
+                return "X eq".to_string();
+            }
+            let z = Point::default();
+            if z.x.to_bits() != 0 || z.y.to_bits() != 0 {
+                return "X default".to_string();
+            }
+            let (m, q) = (a * k, a / k);
+            format!(
+                "V {} {} {} {} {} {} {} {}",
+                pt(&sum), pt(&dif), pt(&m), pt(&q), b(a.dp(&c)), b(a.cp(&c)), b(a.slen()), b(a.len())
+            )
         }
         "ll" => {
             let (u, i) = line_spec(t, 1);
